@@ -180,3 +180,47 @@ mod tests {
         assert_eq!(db.last_key().unwrap().unwrap(), 2);
     }
 }
+
+#[cfg(brc20_prog_verif)]
+impl<V> BlockDatabase<V>
+where
+    V: Encode + Decode + Clone,
+{
+    /// Verification hook: delete every row and the in-memory cache.
+    pub fn verif_wipe(&mut self) {
+        let keys: Vec<Box<[u8]>> = self
+            .db
+            .full_iterator(IteratorMode::Start)
+            .map(|kv| kv.expect("iter").0)
+            .collect();
+        for k in keys {
+            self.db.delete(&k).expect("delete");
+        }
+        self.cache.clear();
+    }
+
+    /// Verification hook: read-only dump of the complete representation.
+    pub fn verif_dump(&self, name: &'static str) -> crate::verif::VerifTableDump {
+        crate::verif::VerifTableDump {
+            name,
+            db: self
+                .db
+                .full_iterator(IteratorMode::Start)
+                .map(|kv| {
+                    let (k, v) = kv.expect("iter");
+                    (k.to_vec(), v.to_vec())
+                })
+                .collect(),
+            cache_db: Vec::new(),
+            cache: self
+                .cache
+                .iter()
+                .map(|(k, v)| crate::verif::VerifCacheRow {
+                    key: k.encode_vec(),
+                    history: Vec::new(),
+                    latest: Some(v.encode_vec()),
+                })
+                .collect(),
+        }
+    }
+}
